@@ -44,6 +44,41 @@ def _is_mutable_ctor(e: ast.AST) -> bool:
     return False
 
 
+def _stateful_methods(model: Model, ci) -> Set[str]:
+    """names of the methods of class ci (its own and inherited package ones, __init__ apart) that store into or mutate an
+    attribute of self - directly or through another method of the class they call on self"""
+    direct: Set[str] = set()
+    calls: Dict[str, Set[str]] = {}
+    meths = model.all_methods(ci)
+    for name, f in meths.items():
+        if name == "__init__" or not f.pos_params:
+            continue
+        selfn = f.pos_params[0]
+        calls[name] = set()
+        for n in own_nodes(f):
+            if isinstance(n, (ast.Assign, ast.AugAssign, ast.AnnAssign)):
+                tgts = n.targets if isinstance(n, ast.Assign) else [n.target]
+                for t in tgts:
+                    b = t.value if isinstance(t, ast.Subscript) else t
+                    if isinstance(b, ast.Attribute) and isinstance(b.value, ast.Name) and b.value.id == selfn:
+                        direct.add(name)
+            if isinstance(n, ast.Call) and isinstance(n.func, ast.Attribute):
+                v = n.func.value
+                if n.func.attr in MUTATORS and isinstance(v, ast.Attribute) and isinstance(v.value, ast.Name) and v.value.id == selfn:
+                    direct.add(name)
+                if isinstance(v, ast.Name) and v.id == selfn:
+                    calls[name].add(n.func.attr)
+    res = set(direct)
+    changed = True
+    while changed:
+        changed = False
+        for name, cs in calls.items():
+            if name not in res and cs & res:
+                res.add(name)
+                changed = True
+    return res
+
+
 class Site:
     __slots__ = ("fi", "stmt", "what", "kind")
 
@@ -59,6 +94,18 @@ def persistent_state_sites(model: Model) -> List[Site]:
         for name, val in mi.assigns.items():
             if _is_mutable_ctor(val):
                 mod_mut[(mi.name, name)] = val
+    # module-level *instances* of package classes that keep state in their attributes: one object shared by every call
+    mod_inst: Dict[Tuple[str, str], Tuple[object, Set[str]]] = {}
+    for mi in model.modules.values():
+        for name, val in mi.assigns.items():
+            if isinstance(val, ast.Call) and isinstance(val.func, (ast.Name, ast.Attribute)):
+                ci_ = model.lookup_target(model.resolve_dotted(mi, None, ast.unparse(val.func)))
+                from .model import ClassInfo as _CI
+
+                if isinstance(ci_, _CI):
+                    st_ = _stateful_methods(model, ci_)
+                    if st_:
+                        mod_inst[(mi.name, name)] = (ci_, st_)
     for fi in model.funcs.values():
         mi = fi.module
         local_binds = set(fi.params)
@@ -109,6 +156,15 @@ def persistent_state_sites(model: Model) -> List[Site]:
                 nm = module_name(n.func.value)
                 if nm:
                     out.append(Site(fi, stmt_of(n), nm, f".{n.func.attr}() on a module-level container"))
+        # methods called on a module-level instance that change the instance: what one call leaves behind the next one finds
+        if mod_inst:
+            for n in own_nodes(fi):
+                if isinstance(n, ast.Call) and isinstance(n.func, ast.Attribute) and isinstance(n.func.value, ast.Name) and n.func.value.id not in local_binds:
+                    tgt = model.resolve_dotted(mi, fi, n.func.value.id)
+                    mod, _, nm = tgt.rpartition(".")
+                    hit = mod_inst.get((mod, nm))
+                    if hit is not None and (n.func.attr in hit[1] or n.func.attr in ("visit", "generic_visit") and any(x.startswith(("visit_", "call_")) for x in hit[1])):
+                        out.append(Site(fi, stmt_of(n), f"{mod}.{nm}", f".{n.func.attr}() on a module-level instance of {hit[0].name}, whose methods write its attributes ({', '.join(sorted(hit[1]))[:80]}): the object - and whatever it has handed out - is shared by all calls"))
         # class-level mutable attributes mutated through self / cls
         if fi.cls is not None and fi.pos_params:
             selfn = fi.pos_params[0]
